@@ -197,6 +197,37 @@ theorem specCodeOK_of_valid (c : B) (h : validResponseCode c = true) : specCodeO
       · exact Or.inr hx
     · cases h
 
+/-- the model's style table admits exactly what the oracle's transcription admits -/
+theorem specStyleOK_of_styleOK (loc style : B) (h : styleOK loc style = true) : specStyleOK loc style = true := by
+  by_cases he : style = []
+  · subst he; rfl
+  · have q1 : s "query" ≠ s "path" := by decide
+    have q2 : s "header" ≠ s "path" := by decide
+    have q3 : s "header" ≠ s "query" := by decide
+    have q4 : s "cookie" ≠ s "path" := by decide
+    have q5 : s "cookie" ≠ s "query" := by decide
+    have q6 : s "cookie" ≠ s "header" := by decide
+    by_cases h1 : loc = s "path"
+    · subst h1
+      have : style ∈ [s "matrix", s "label", s "simple"] := by simpa [styleOK, he] using h
+      simp only [mem_cons, not_mem_nil, or_false] at this
+      rcases this with rfl | rfl | rfl <;> decide
+    · by_cases h2 : loc = s "query"
+      · subst h2
+        have : style ∈ [s "form", s "spaceDelimited", s "pipeDelimited", s "deepObject"] := by
+          simpa [styleOK, he, q1] using h
+        simp only [mem_cons, not_mem_nil, or_false] at this
+        rcases this with rfl | rfl | rfl | rfl <;> decide
+      · by_cases h3 : loc = s "header"
+        · subst h3
+          have : style = s "simple" := by simpa [styleOK, he, q2, q3] using h
+          subst this; decide
+        · by_cases h4 : loc = s "cookie"
+          · subst h4
+            have : style = s "form" := by simpa [styleOK, he, q4, q5, q6] using h
+            subst this; decide
+          · simp [styleOK, he, h1, h2, h3, h4] at h
+
 /-- the operation clause of WF, from the shape and the schemas -/
 theorem wfOperation_of_shape (v : Version) {route : B} {o : Operation Schema} (h : OpShape route o)
     (hs : ∀ x ∈ o.schemas, wfSchema v x = true) : wfOperation v o = true := by
@@ -210,7 +241,7 @@ theorem wfOperation_of_shape (v : Version) {route : B} {o : Operation Schema} (h
   · intro p hp
     obtain ⟨h1, h2, h3⟩ := h.params p hp
     simp only [wfParam, Bool.and_eq_true, Bool.or_eq_true, bne_iff_ne, ne_eq]
-    refine ⟨⟨⟨by simpa using h1, by simpa using h2⟩, ?_⟩, ?_⟩
+    refine ⟨⟨⟨⟨by simpa using h1, by simpa using h2⟩, ?_⟩, specStyleOK_of_styleOK _ _ (h.styles p hp)⟩, ?_⟩
     · by_cases hl : p.loc = s "path"
       · exact Or.inr (h3 hl)
       · exact Or.inl hl
